@@ -191,6 +191,68 @@ def build(e, pool, opts):
     raise ValueError(t)
 
 
+# ---------------------------------------------------------------------------------------
+# models DERIVED by the library from a composed model (grid-search cell, prior passing, limits, copies, freezing)
+# ---------------------------------------------------------------------------------------
+def apply_derive(model, pool, d):
+    """the library's own derivation of a new model from `model`; new priors are addressed by the pool index of the
+    prior they replace.  Only library entry points are called here; nothing is repaired or re-implemented."""
+    route = d["route"]
+    index = {id(p): i for i, p in enumerate(pool)}
+
+    def by_order(table):          # one entry per free parameter, in the order the library documents (priors ordered by id)
+        return [table[str(index[id(p)])] for p in model.priors_ordered_by_id]
+
+    if route == "identity":
+        return model.mapper_from_prior_arguments({p: p for p in model.priors})
+    if route in ("partial", "replacing", "args"):
+        args = {pool[int(i)]: make_prior(ps) for i, ps in d["new"].items()}
+        if route == "partial":
+            return model.mapper_from_partial_prior_arguments(args)
+        if route == "replacing":
+            return model.replacing(args)
+        return model.mapper_from_prior_arguments(args)
+    if route == "with_limits":
+        return model.with_limits([tuple(unhex(x) for x in lim) for lim in by_order(d["limits"])])
+    if route in ("means_a", "means_r"):
+        means = [unhex(x) for x in by_order(d["means"])]
+        kw = {"a": unhex(d["a"])} if route == "means_a" else {"r": unhex(d["r"])}
+        return model.mapper_from_prior_means(means, no_limits=bool(d.get("no_limits")), **kw)
+    if route == "uniform_floats":
+        return model.mapper_from_uniform_floats([unhex(x) for x in by_order(d["means"])], unhex(d["b"]))
+    if route in ("result_absolute", "result_relative", "result_bounded", "result_model"):
+        # prior passing through a Result: the samples of a finished search hold the model and the means
+        means = [unhex(x) for x in by_order(d["means"])]
+        from autofit.non_linear.samples.summary import SamplesSummary
+        from autofit.non_linear.samples.sample import Sample
+        sample = Sample(log_likelihood=1.0, log_prior=0.0, weight=1.0,
+                        kwargs={path: unhex(d["means"][str(index[id(prior)])]) for path, prior in model.path_priors_tuples})
+        summary = SamplesSummary(max_log_likelihood_sample=sample, model=model, median_pdf_sample=sample)
+        result = af.Result(samples_summary=summary, paths=None) if d.get("via_result") else summary
+        if route == "result_absolute":
+            return result.model_absolute(unhex(d["a"]))
+        if route == "result_relative":
+            return result.model_relative(unhex(d["r"]))
+        if route == "result_bounded":
+            return result.model_bounded(unhex(d["b"]))
+        return result.model
+    if route == "copy":
+        return model.copy()
+    if route == "freeze":
+        model.freeze()
+        return model
+    if route == "freeze_unfreeze":
+        model.freeze()
+        model.prior_count          # a cached query on the frozen model
+        model.unfreeze()
+        return model
+    if route == "freeze_derive":     # a frozen model (as held by a finished search) is the source of a grid-search cell
+        model.freeze()
+        args = {pool[int(i)]: make_prior(ps) for i, ps in d["new"].items()}
+        return model.mapper_from_partial_prior_arguments(args)
+    raise ValueError(route)
+
+
 def make_search(s, opts):
     cls = SEARCHES[s["cls"]]
     kw = dict(s.get("settings", {}))
@@ -314,6 +376,19 @@ def run_fit(spec, want_abs):
     pool = make_pool(spec["pool"], order, int(opts.get("waste", 0)))
     ids = {id(p): i for i, p in enumerate(pool)}
     model = build(spec["model"], pool, opts)
+    if opts.get("derive"):
+        # the fitted model is DERIVED by the library from the composed one (possibly in several steps; every step
+        # addresses the priors of the step before through the same pool indices)
+        # (every step addresses the priors by the pool index they replace: the pool follows the derivations)
+        for d in opts["derive"]:
+            before = {id(p): i for i, p in enumerate(pool)}
+            paths = [(path, before.get(id(prior))) for path, prior in model.path_priors_tuples]
+            model = apply_derive(model, pool, d)
+            pool = list(pool)
+            for path, i in paths:
+                if i is not None:
+                    pool[i] = model.object_for_path(path)
+        ids = {}
     COUNTER[0] += 1
     sspec = dict(spec["search"])
     if sspec.get("name") is None:
